@@ -434,7 +434,7 @@ def pathText (env : Env) (full : Bool) (parts : List Text) : Text :=
 def assemble (u : URL) (auth path qs frag : Text) : Text :=
   (if u.scheme ≠ [] then u.scheme ++ [58] else []) ++
   (if auth ≠ [] then 47 :: 47 :: auth
-   else if u.scheme ≠ [] ∧ (path = [] ∨ path.head? = some 47) ∧ path.take 2 ≠ [47, 47] ∧ usesNetloc u
+   else if path.take 2 = [47, 47] ∨ (u.scheme ≠ [] ∧ (path = [] ∨ path.head? = some 47) ∧ usesNetloc u)
    then [47, 47] else []) ++
   (if path ≠ [] then (if u.scheme ≠ [] ∧ auth ≠ [] ∧ path.head? ≠ some 47 then 47 :: path else path) else []) ++
   (if qs ≠ [] then 63 :: qs else []) ++
